@@ -1739,6 +1739,9 @@ impl SymbolTable {
         for symbols in self.name_table.values_mut() {
             symbols.retain(|x| !drop_list.contains(x));
         }
+        // `resolve` asks `name_table.contains_key(name)`: an emptied entry must
+        // not make a dropped name look different from one never declared.
+        self.name_table.retain(|_, symbols| !symbols.is_empty());
 
         for tokens in self.reference_table.values_mut() {
             tokens.retain(|x| !is_drop_token(x, file_path, prj));
